@@ -41,11 +41,11 @@ var out *common.Out
 // harness is built against an older checkout)
 var fixFlag = "7"
 
-// genDevIdx (-extra devidx=1): also generate DEVELOPMENT-mode requests whose output is a block-index module.  Off by
-// default: on such a request the code under test panics (nil dereference in Stages.LastStageCompleted: no mapper
-// stage is scheduled in development mode, mapSegmenter is nil) as soon as the stores are complete - reported as a
-// finding; the witness replays through -replay whatever this switch says.
-var genDevIdx = false
+// genDevIdx (-extra devidx=0 turns it off): also generate DEVELOPMENT-mode requests whose output is a block-index
+// module.  Before the repair of F28 such a request panicked as soon as its stores were complete (nil dereference in
+// Stages.LastStageCompleted: no mapper stage is scheduled in development mode, mapSegmenter is nil); the witnesses are
+// in witness_devidx_panic.case and are replayed at every run.
+var genDevIdx = true
 
 var fixRe = regexp.MustCompile(` fix=\d+ `)
 
@@ -1049,6 +1049,9 @@ var corpusRuns = []struct {
 	{"d:10:0/0/0:0:15:20:20", 2, "P2.0:10-20", "0,1,0,3,0,0,0,1,1,0,1,1,1,4,5,5,0e,1e,4e,4e,4e,1e,3e,3e,3e,1e,2e,3e,1e,1e,1e,1e,2e,1e,2e,0e,1e,1e,0e"},
 	// F19 development mode, leftover partial: deadlock
 	{"d:10:20/20:20:38:50:50", 1, "P1.0:20-30", "0,1,0,2,0,2,2,0,2,2,3,2,0,2,2,2,2,3,3,0e,0e,0e,1e,1e,1e,0e"},
+	// F28 development mode, block-index output, stores to build: nil dereference in LastStageCompleted
+	{"d:10:0:0:5:20:20:i", 1, "F0.0:0-10,F0.0:0-20", "0,2,0,0"},
+	{"d:10:0:0:5:20:20:i", 1, "-", "0,1,0,1,0,1,1,0,1,2,2,3,3,0e,0e,2e,2e,2e,0e,1e,2e,0e,0e,0e,0e,0e"},
 }
 
 func main() {
